@@ -16,6 +16,8 @@ package main
 //   str      jsoniter Stream.WriteString and encoding/json.Marshal vs Json.escJ / Json.escStd; the model parser reads the
 //            implementation's text back.
 //   parser   Json.parseDoc vs encoding/json.Valid and the byte-exact Go reader on generated and mutated texts.
+//   sizes    (c15_sizes.go) every encoder on result sets of the size classes around the batching constants of the source
+//            (Gen.C15Batch) and, in the search and thorough tiers, of every size 0..450.
 
 import (
 	"bytes"
@@ -1710,6 +1712,7 @@ func c15(r *h.Result, rng *h.Rng, tier string, replay string) error {
 		func() error { return c15LabelsStream(r, rng.Fork(), env, nLbl) },
 		func() error { return c15Tempo(r, rng.Fork(), nTempo) },
 		func() error { return c15Prom(r, rng.Fork(), nProm) },
+		func() error { return c15SizesStream(r, rng.Fork(), env, tier) },
 	}
 	for i, s := range steps {
 		t0 := time.Now()
@@ -1735,6 +1738,9 @@ func c15Replayer(r *h.Result, path string) error {
 	}
 	rep := f.Replay
 	r.Stream("replay of " + path)
+	if rep.Stream == "sizes" {
+		return c15ReplayList(r, rep)
+	}
 	if rep.Batches == "" && rep.Stream != "enc" && rep.Stream != "sql" {
 		r.Notes = append(r.Notes, "replay files of this stream carry the request and the response (body_hex); re-run the tier with the recorded seed to regenerate")
 		return nil
